@@ -571,6 +571,98 @@ func churn(r *hx.Rng, f *failures, stats map[string]int) {
 	stats["churn"]++
 }
 
+// ackeffect: a SUBSCRIBE / UNSUBSCRIBE with thousands of filters takes effect AT its acknowledgement:
+// the moment the SUBACK (UNSUBACK) has been read, another connection publishes to the last filter of the
+// request; the subscriber must (must not) receive it
+func ackeffect(r *hx.Rng, f *failures, stats map[string]int) {
+	b := newBroker()
+	a, err1 := b.connect("acka", 60, nil)
+	p, err2 := b.connect("ackp", 60, nil)
+	if err1 != nil || err2 != nil {
+		f.add("harness: connect failed")
+		return
+	}
+	n := 7000 + r.Intn(4000)
+	var fs []string
+	var qs []int
+	for i := 0; i < n; i++ {
+		fs = append(fs, fmt.Sprintf("ack/%d", i))
+		qs = append(qs, 0)
+	}
+	sync := func(c *client) bool { // PINGREQ / PINGRESP round trip; PUBLISH packets on the way are counted
+		c.write(mq.Pingreq())
+		return true
+	}
+	_ = sync
+	// drain a until PINGRESP, counting PUBLISH packets of topic t
+	drain := func(c *client, t string) (int, bool) {
+		got := 0
+		c.write(mq.Pingreq())
+		for {
+			pk, err := c.read(10 * time.Second)
+			if err != nil {
+				return got, false
+			}
+			switch mq.Type(pk) {
+			case mq.PINGRESP:
+				return got, true
+			case mq.PUBLISH:
+				if pub, _ := mq.ParsePublish(pk); pub.Topic == t {
+					got++
+				}
+			}
+		}
+	}
+	for round := 0; round < 5; round++ {
+		last := fs[n-1-round]
+		// SUBSCRIBE: effective once the SUBACK is out
+		a.write(mq.Subscribe(10+round, fs, qs))
+		for {
+			pk, err := a.read(20 * time.Second)
+			if err != nil {
+				f.add("C07: no SUBACK for a SUBSCRIBE with %d filters: %v", n, err)
+				return
+			}
+			if mq.Type(pk) == mq.SUBACK {
+				break
+			}
+		}
+		p.write(mq.Publish(last, []byte("after suback"), 0, false, false, 0))
+		if _, ok := drain(p, ""); !ok {
+			f.add("C07: the publisher's connection failed")
+			return
+		}
+		if got, _ := drain(a, last); got != 1 {
+			f.add("C07: a message accepted after the SUBACK of a %d-filter SUBSCRIBE was delivered %d times to the subscriber (filter %s)", n, got, last)
+		}
+		// UNSUBSCRIBE: no delivery once the UNSUBACK is out
+		a.write(mq.Unsubscribe(20+round, fs))
+		for {
+			pk, err := a.read(20 * time.Second)
+			if err != nil {
+				f.add("C07: no UNSUBACK for an UNSUBSCRIBE with %d filters: %v", n, err)
+				return
+			}
+			if mq.Type(pk) == mq.UNSUBACK {
+				break
+			}
+		}
+		p.write(mq.Publish(last, []byte("after unsuback"), 0, false, false, 0))
+		if _, ok := drain(p, ""); !ok {
+			f.add("C07: the publisher's connection failed")
+			return
+		}
+		if got, _ := drain(a, last); got != 0 {
+			f.add("C07: a message accepted after the UNSUBACK of a %d-filter UNSUBSCRIBE was still delivered to the unsubscribed filter %s", n, last)
+		}
+	}
+	a.c.Close()
+	p.c.Close()
+	b.expectStops(f, 2, 10*time.Second, "ackeffect")
+	b.shutdown(f, "ackeffect")
+	stats["ackeffect"]++
+}
+
 // keep-alive: K = 1 s
 func keepalive(f *failures, stats map[string]int) {
 	b := newBroker()
@@ -686,6 +778,8 @@ func main() {
 				teardown(r, f, stats)
 			case "churn":
 				churn(r, f, stats)
+			case "ackeffect":
+				ackeffect(r, f, stats)
 			case "keepalive":
 				if i == 0 {
 					keepalive(f, stats)
@@ -698,8 +792,7 @@ func main() {
 		out.Oracle(0, "%s", m)
 	}
 	out.Close()
-	os.Remove(outPrefix + ".cases") // oracle-only driver: no model cases
-	os.Remove(outPrefix + ".impl")
+	// (an oracle-only driver: the case files stay empty)
 	stats["runs"] = n
 	b, _ := json.MarshalIndent(stats, "", " ")
 	os.WriteFile(outPrefix+".stats", b, 0o644)
